@@ -22,6 +22,8 @@ import (
 	"sort"
 	"strconv"
 	"strings"
+	"sync"
+	"time"
 	"unsafe"
 
 	"github.com/irai/packet"
@@ -56,19 +58,50 @@ func CfgOfToks(a []string) Cfg {
 	return c
 }
 
+// template: ONE session built by the library's own constructor (Config.NewSession on a recording connection).
+// Everything NewSession sizes or pre-populates (the Statistics table indexed by PayloadID above all) is taken from it,
+// never re-stated here: a harness that writes `make([]ProtoStats, 32)` itself does not test the library's 32.
+var (
+	tmplOnce sync.Once
+	tmpl     *packet.Session
+)
+
+func template() *packet.Session {
+	tmplOnce.Do(func() {
+		packet.VerifSetMonitorNICFrequency(24 * time.Hour)
+		c := DefaultCfg
+		s, err := packet.Config{Conn: lib.NewRecConn(), NICInfo: &packet.NICInfo{
+			HomeLAN4:    netip.PrefixFrom(netip.AddrFrom4(c.LAN), c.Bits),
+			HostAddr4:   packet.Addr{MAC: c.HostMAC, IP: netip.AddrFrom4([4]byte{192, 168, 0, 129})},
+			RouterAddr4: packet.Addr{MAC: c.RouterMAC, IP: netip.AddrFrom4([4]byte{192, 168, 0, 11})}},
+			ProbeDeadline: packet.DefaultProbeDeadline, OfflineDeadline: packet.DefaultOfflineDeadline,
+			PurgeDeadline: packet.DefaultPurgeDeadline}.NewSession("")
+		if err != nil {
+			panic(err)
+		}
+		tmpl = s
+	})
+	return tmpl
+}
+
+// StatsLen is len(Session.Statistics) as the library's constructor makes it.
+func StatsLen() int { return len(template().Statistics) }
+
 // NewSession builds the part of a Session that Parse reads, without the background goroutines of
-// packet.NewSession (one fresh session per case keeps every case a pure function of its line).
+// packet.NewSession (one fresh session per case keeps every case a pure function of its line).  Sizes and
+// pre-populated tables are cloned from the constructor-built template.
 func NewSession(c Cfg) *packet.Session {
+	t := template()
 	return &packet.Session{
 		NICInfo: &packet.NICInfo{
 			HomeLAN4:    netip.PrefixFrom(netip.AddrFrom4(c.LAN), c.Bits),
 			HostAddr4:   packet.Addr{MAC: c.HostMAC, IP: netip.AddrFrom4([4]byte{192, 168, 0, 129})},
 			RouterAddr4: packet.Addr{MAC: c.RouterMAC, IP: netip.AddrFrom4([4]byte{192, 168, 0, 11})},
 		},
-		HostTable:  packet.HostTable{Table: map[netip.Addr]*packet.Host{}},
+		HostTable:  packet.HostTable{Table: make(map[netip.Addr]*packet.Host, 64)},
 		MACTable:   packet.MACTable{Table: []*packet.MACEntry{}},
-		Statistics: make([]packet.ProtoStats, 32),
-		C:          make(chan packet.Notification, 128),
+		Statistics: append([]packet.ProtoStats(nil), t.Statistics...),
+		C:          make(chan packet.Notification, cap(t.C)),
 	}
 }
 
